@@ -20,7 +20,7 @@ import (
 
 // C08 — reading a file loses nothing: blocks and lines reproduce the text exactly.
 
-var c08Alphabet = []string{"2020-01-01", "\n", "\r\n", " ", "    ", "\t", "1h", "x", "é", "中", "\xff", "\r"}
+var c08Alphabet = []string{"2020-01-01", "\n", "\r\n", " ", "    ", "\t", "1h", "x", "é", "中", "\xff", "\r", "\ufffd"}
 
 func c08Families(tier fw.Tier) []docFamily {
 	return cachedFamilies("c08/"+string(tier), func() []docFamily {
@@ -61,7 +61,7 @@ func init() {
 		ID:    "C08",
 		Title: "Reading a file loses nothing: blocks and lines reproduce the text exactly",
 		Rule: "all klog-accepted texts among: the full formatting product FB, three-record documents FA3, single-edit documents FD1, ALL strings of <=6 (quick) / 7 (thorough) tokens over " +
-			"{date, LF, CRLF, space, 4 spaces, tab, 1h, x, é, 中, 0xFF, lone CR}, and a byte-menu family placing invalid UTF-8 / CR / NUL / trailing blanks in record and entry summaries under all line-ending mixes; " +
+			"{date, LF, CRLF, space, 4 spaces, tab, 1h, x, é, 中, 0xFF, lone CR, U+FFFD}, and a byte-menu family placing invalid UTF-8 / CR / NUL / trailing blanks in record and entry summaries under all line-ending mixes; " +
 			"non-trivial = accepted with at least one record; distinct by text hash. Serial parser and parallel parser with 2 and 3 workers.",
 		Assumptions: []string{
 			"independent physical-line splitter specmodel.SplitLines (LF or CRLF ends a line; a lone CR is an ordinary byte)",
